@@ -258,9 +258,38 @@ pub fn run(tier: &str) -> i32 {
             }
             for &k in &ks {
                 runs += 1;
-                let out = std::process::Command::new("taskset").arg("-c").arg(format!("0-{}", k - 1)).arg(&bin).arg(flop_t).args(ranges_t.iter()).output();
-                let text = match out {
-                    Ok(o) => String::from_utf8_lossy(&o.stdout).to_string(),
+                // the example must finish: a run that is still going after 120 s (these take well under a second) is
+                // killed and what it printed so far is compared - which then lacks the totals
+                let child = std::process::Command::new("taskset").arg("-c").arg(format!("0-{}", k - 1)).arg(&bin).arg(flop_t).args(ranges_t.iter()).stdout(std::process::Stdio::piped()).stderr(std::process::Stdio::null()).spawn();
+                let text = match child {
+                    Ok(mut ch) => {
+                        let started = std::time::Instant::now();
+                        let mut timed_out = false;
+                        loop {
+                            match ch.try_wait() {
+                                Ok(Some(_)) => break,
+                                Ok(None) => {
+                                    if started.elapsed().as_secs() > 120 {
+                                        let _ = ch.kill();
+                                        let _ = ch.wait();
+                                        timed_out = true;
+                                        break;
+                                    }
+                                    std::thread::sleep(std::time::Duration::from_millis(20));
+                                }
+                                Err(_) => break,
+                            }
+                        }
+                        let mut text = String::new();
+                        if let Some(mut so) = ch.stdout.take() {
+                            use std::io::Read;
+                            let _ = so.read_to_string(&mut text);
+                        }
+                        if timed_out {
+                            text.push_str("\n(killed after 120 s without finishing)\n");
+                        }
+                        text
+                    }
                     Err(e) => {
                         eprintln!("  [C16] cannot run the example under taskset: {} (sub-check skipped)", e);
                         break;
